@@ -1,2 +1,114 @@
-(* C03 -- theorems are being added *)
-From ZK Require Import Laws.
+(* C03 -- BBS proof completeness for every disclosure choice.  For every environment with Laws, every valid
+   signature, every message list (any L), every index list (unsorted, duplicates allowed, entries < L), every header /
+   presentation header and all draws outside the negligible set {r1 = 0, r2 = 0} (and pk = O, sk + e = 0, which a
+   decoded key / honest signature exclude): proof_gen succeeds, the proof verifies with exactly the disclosed
+   messages at their positions, has length 272 + 32 * U and survives its codec. *)
+From ZK Require Import Laws BaseLemmas ModelLemmas SignProofs Codec ProofComplete.
+
+Theorem C03_proof_complete :
+  forall (E : env) (LW : Laws E) pk sigb s header ph msgs idx rho,
+  suite_ok E ->
+  sig_from_bytes E sigb = Ok s ->
+  verify E s pk msgs header = Ok tt ->
+  let ml := option_default [] msgs in
+  let D := sort_dedup (option_default [] idx) in
+  (forall i, In i (option_default [] idx) -> (i < N.of_nat (length ml))%N) ->
+  length rho = (5 + (length ml - length D))%nat ->
+  nth 0 rho (f0 (SO E)) <> f0 (SO E) -> nth 1 rho (f0 (SO E)) <> f0 (SO E) ->
+  dl2 E LW pk <> f0 (SO E) -> fadd (SO E) (dl2 E LW pk) (sig_e E s) <> f0 (SO E) ->
+  exists p,
+    proof_gen E pk sigb header ph msgs idx rho = Ok p /\
+    proof_verify E p pk (Some (pick ml D)) (Some D) header ph = Ok tt /\
+    length (pok_to_bytes E p) = (272 + 32 * (length ml - length D))%nat /\
+    pok_from_bytes E (pok_to_bytes E p) = Ok p.
+Proof. exact proof_complete. Qed.
+Check (C03_proof_complete :
+  forall (E : env) (LW : Laws E) pk sigb s header ph msgs idx rho,
+  suite_ok E ->
+  sig_from_bytes E sigb = Ok s ->
+  verify E s pk msgs header = Ok tt ->
+  let ml := option_default [] msgs in
+  let D := sort_dedup (option_default [] idx) in
+  (forall i, In i (option_default [] idx) -> (i < N.of_nat (length ml))%N) ->
+  length rho = (5 + (length ml - length D))%nat ->
+  nth 0 rho (f0 (SO E)) <> f0 (SO E) -> nth 1 rho (f0 (SO E)) <> f0 (SO E) ->
+  dl2 E LW pk <> f0 (SO E) -> fadd (SO E) (dl2 E LW pk) (sig_e E s) <> f0 (SO E) ->
+  exists p,
+    proof_gen E pk sigb header ph msgs idx rho = Ok p /\
+    proof_verify E p pk (Some (pick ml D)) (Some D) header ph = Ok tt /\
+    length (pok_to_bytes E p) = (272 + 32 * (length ml - length D))%nat /\
+    pok_from_bytes E (pok_to_bytes E p) = Ok p).
+Print Assumptions C03_proof_complete.
+
+(* core level: any generator set of the right size, any api_id whose H2S DST fits (plain and blind interfaces) *)
+Theorem C03_core_proof_complete :
+  forall (E : env) (LW : Laws E) pk s g ms idx header ph api rho,
+  core_verify E pk s ms g header api = Ok tt ->
+  (forall i, In i idx -> (i < N.of_nat (length ms))%N) ->
+  length rho = (5 + (length ms - length (sort_dedup idx)))%nat ->
+  nth 0 rho (f0 (SO E)) <> f0 (SO E) -> nth 1 rho (f0 (SO E)) <> f0 (SO E) ->
+  sig_A E s <> g1_zero (PR E) -> dl2 E LW pk <> f0 (SO E) ->
+  fadd (SO E) (dl2 E LW pk) (sig_e E s) <> f0 (SO E) ->
+  (length (api ++ c_h2s (cs E)) <= 255)%nat ->
+  exists p,
+    core_proof_gen E pk s g ms idx header ph api rho = Ok p /\
+    length (p_m_cap E p) = (length ms - length (sort_dedup idx))%nat /\
+    pok_points_ok E p /\
+    core_proof_verify E pk p g header ph
+      (map (nthF E ms) (sort_dedup idx)) (sort_dedup idx) api = Ok tt.
+Proof. exact core_proof_complete. Qed.
+Check (C03_core_proof_complete :
+  forall (E : env) (LW : Laws E) pk s g ms idx header ph api rho,
+  core_verify E pk s ms g header api = Ok tt ->
+  (forall i, In i idx -> (i < N.of_nat (length ms))%N) ->
+  length rho = (5 + (length ms - length (sort_dedup idx)))%nat ->
+  nth 0 rho (f0 (SO E)) <> f0 (SO E) -> nth 1 rho (f0 (SO E)) <> f0 (SO E) ->
+  sig_A E s <> g1_zero (PR E) -> dl2 E LW pk <> f0 (SO E) ->
+  fadd (SO E) (dl2 E LW pk) (sig_e E s) <> f0 (SO E) ->
+  (length (api ++ c_h2s (cs E)) <= 255)%nat ->
+  exists p,
+    core_proof_gen E pk s g ms idx header ph api rho = Ok p /\
+    length (p_m_cap E p) = (length ms - length (sort_dedup idx))%nat /\
+    pok_points_ok E p /\
+    core_proof_verify E pk p g header ph
+      (map (nthF E ms) (sort_dedup idx)) (sort_dedup idx) api = Ok tt).
+Print Assumptions C03_core_proof_complete.
+
+(* the undisclosed index set is the complement of the sorted, de-duplicated disclosed set: U + R = L *)
+Theorem C03_remaining_length :
+  forall n idx, NoDup idx -> (forall y, In y idx -> (y < N.of_nat n)%N) ->
+  (length (remaining n idx) + length idx = n)%nat.
+Proof. exact remaining_length. Qed.
+Check (C03_remaining_length :
+  forall n idx, NoDup idx -> (forall y, In y idx -> (y < N.of_nat n)%N) ->
+  (length (remaining n idx) + length idx = n)%nat).
+Print Assumptions C03_remaining_length.
+
+Theorem C03_remaining_In :
+  forall n idx y, In y (remaining n idx) <-> ((y < N.of_nat n)%N /\ ~ In y idx).
+Proof. exact remaining_In. Qed.
+Check (C03_remaining_In :
+  forall n idx y, In y (remaining n idx) <-> ((y < N.of_nat n)%N /\ ~ In y idx)).
+Print Assumptions C03_remaining_In.
+
+Theorem C03_sort_dedup_sorted :
+  forall l, strictly_sorted (sort_dedup l).
+Proof. exact sort_dedup_sorted. Qed.
+Check (C03_sort_dedup_sorted :
+  forall l, strictly_sorted (sort_dedup l)).
+Print Assumptions C03_sort_dedup_sorted.
+
+Theorem C03_sort_dedup_In :
+  forall y l, In y (sort_dedup l) <-> In y l.
+Proof. exact sort_dedup_In. Qed.
+Check (C03_sort_dedup_In :
+  forall y l, In y (sort_dedup l) <-> In y l).
+Print Assumptions C03_sort_dedup_In.
+
+(* the proof length depends on the number of undisclosed messages only *)
+Theorem C03_pok_to_bytes_length :
+  forall (E : env) (LW : Laws E) p, length (pok_to_bytes E p) = (272 + 32 * length (p_m_cap E p))%nat.
+Proof. exact pok_to_bytes_length. Qed.
+Check (C03_pok_to_bytes_length :
+  forall (E : env) (LW : Laws E) p, length (pok_to_bytes E p) = (272 + 32 * length (p_m_cap E p))%nat).
+Print Assumptions C03_pok_to_bytes_length.
